@@ -263,7 +263,7 @@ Section Layout.
       specialize (IH fs1 (start + len) stop (i + 1) (pos + len)
                      (tr ++ [mkEv (fidx i) KPwrite (fbase i + so) len true]) HI1 T6 ltac:(lia) ltac:(lia) Hstop ltac:(lia) ltac:(lia)).
       cbv zeta in IH. destruct IH as (R1 & R2 & R3 & R4).
-      repeat split; [exact R1|exact R2|exact R3|].
+      split; [exact R1|]. split; [exact R2|]. split; [exact R3|].
       intros j o Hj Ho. rewrite R4 by assumption.
       (* what the single forwarded pwrite did to block j *)
       assert (G1 : fget fs1 j o =
@@ -316,7 +316,7 @@ Section Layout.
       destruct (addr_block (Z.to_nat nb) ltac:(lia) a ltac:(rewrite Z2Nat.id by lia; lia)) as (j & o & H1 & H2 & H3).
       subst a. rewrite whole_get by (try assumption; lia). rewrite HG by lia.
       destruct (Z.leb_spec start (B j + o)); destruct (Z.ltb_spec (B j + o) stop); cbn [andb].
-      + rewrite get_f_pwrite_in by lia. rewrite get_ztake by lia. f_equal. lia.
+      + rewrite get_f_pwrite_in by lia. rewrite get_ztake by lia. f_equal; lia.
       + rewrite get_f_pwrite_out by lia. rewrite whole_get by (try assumption; lia). reflexivity.
       + rewrite get_f_pwrite_out by lia. rewrite whole_get by (try assumption; lia). reflexivity.
       + rewrite get_f_pwrite_out by lia. rewrite whole_get by (try assumption; lia). reflexivity.
